@@ -166,6 +166,8 @@ def cases(tier, seed):
     for variant in ["const", "list", "ndarray", "alias", "closure"]:
         for form in ["rebind", "mutate"] if variant in ("list", "ndarray") else ["rebind"]:
             specs.append({"kind": "mutate", "what": variant, "form": form, "gseed": seed})
+    for form in ("to_int", "to_tensor", "to_bool"):
+        specs.append({"kind": "mutate", "what": "annot", "form": form, "gseed": seed})
     # interleave long (children) and short cases deterministically: children first is fine for the pool
     return specs
 
